@@ -4,7 +4,7 @@ workloads + (where a model prediction exists) kernel-evaluated comparison with t
 import collections, json, os, re
 from . import common as C
 
-FAMILIES = {"C14": ["hub", "errors"], "C01": ["conc", "closures", "framing"], "C02": ["nest", "closures"], "C09": ["values"], "C10": ["errors"], "C11": ["closures", "hub", "framing"],
+FAMILIES = {"C14": ["hub", "errors"], "C01": ["conc", "closures", "framing"], "C02": ["nest", "closures"], "C09": ["values", "conc"], "C10": ["errors"], "C11": ["closures", "hub", "framing"],
             "C13": ["hub", "relay", "nestedlink"], "C17": ["wire"]}
 
 
@@ -62,6 +62,10 @@ def mon_c01(rec):
             if c["err"] != "context canceled" or c["ret"] != "0" or len(got) > 1:
                 out.append("call tag %d made with an already cancelled context returned (%s, %r) and caused %d invocations, expected (0, 'context canceled') and at most one" % (c["tag"], c["ret"], c["err"], len(got)))
             continue
+        if c["m"] == "CallWithHandlerContextAfterReturn":
+            if (c["ret"], c["err"]) != ("7", "") or len(got) != 1:
+                out.append("a call made with a handler's context after that handler had returned (on a healthy link) returned (%s, %r) and caused %d invocation(s), expected (7, '') and exactly one: every call gets its own handler's result" % (c["ret"], c["err"], len(got)))
+            continue
         if len(got) != 1:
             out.append("call tag %d caused %d invocations, expected exactly one" % (c["tag"], len(got)))
             continue
@@ -79,6 +83,11 @@ def mon_c01(rec):
             v, msg = json.loads(c["arg"])
             if c["ret"] != str(v) or c["err"] != msg:
                 out.append("call tag %d (FailVal %s) returned (%s, %r): not its own handler's result" % (c["tag"], c["arg"], c["ret"], c["err"]))
+        elif c["m"] == "EchoPtr":
+            if g["data"] != c["arg"]:
+                out.append("call tag %d: the handler ran with the pointer argument %s, the caller passed %s: the invocation is not with this call's arguments" % (c["tag"], g["data"], c["arg"]))
+            if c["ret"] != c["arg"] or c["err"] != "":
+                out.append("call tag %d (EchoPtr %s) returned (%s, %r): not its own handler's result" % (c["tag"], c["arg"], c["ret"], c["err"]))
         elif c["m"] == "Notify0":
             if c["err"] != "":
                 out.append("call tag %d of a function whose handler returns nothing returned error %r (the handler ran %d time(s))" % (c["tag"], c["err"], len(got)))
@@ -104,6 +113,8 @@ def mon_c02(rec):
                 out.append("alternating call chain of depth %s from %s returned (%s, %r)" % (c["arg"], c["from"], c["ret"], c["err"]))
         if c["m"] == "Iter" and (c["err"] != "" or c["ret"] != "n0/;n1/;n2/"):
             out.append("closure calls issued while handlers were stalled returned (%s, %r)" % (c["ret"], c["err"]))
+        if c["m"] == "ChainFromEnumeration" and (c["err"] != "" or c["ret"] != "cb0/;cb1/"):
+            out.append("a chain whose outermost call is made from inside the enumeration callback and which comes back with a function argument (B -> A.CallBackIter -> B.Iter(f) -> f on A; only the outermost call is issued from the callback) returned (%s, %r), expected ('cb0/;cb1/', '') - while handlers were stalled" % (c["ret"], c["err"]))
         if c["m"] == "Spawn" and (c["err"] != "" or c["ret"] != "640"):
             out.append("a handler that starts a call back on a goroutine of its own and returns at once: its caller got (%s, %r) instead of (640, '') within 4 s - the response waited for the spawned call, whose handler is stalled" % (c["ret"], c["err"]))
         if c["m"] == "Gate" and (c["err"] != "" or c["ret"] != str(c["tag"])):
@@ -392,7 +403,7 @@ def mon_c17(rec):
     if rec["family"] == "foreign":
         want = {901: ("c1", 5, ""), 902: ("c2", "hi", ""), 903: ("c3", None, ""), 904: ("c4", None, "nope"), 905: ("c5", 2905, ""),
                 906: ("c6", 3, ""), 907: ("c7", 0, ""), 908: ("c8", "", ""), 909: ("c9", None, ""), 910: ("c10", "hello x", ""), 911: ("s1", 6, ""), 912: ("s2", "x", ""), 913: ("s3", None, ""),
-                915: ("s5", 7, ""), 917: ("s7", 0, ""), 920: ("s10", 8, ""), 921: ("c21", 4921, ""), 922: ("c22", 924, ""), 923: ("c23", "3", "")}
+                915: ("s5", 7, ""), 917: ("s7", 0, ""), 920: ("s10", 8, ""), 921: ("c21", 4921, ""), 922: ("c22", 924, ""), 923: ("c23", "3", ""), 924: ("c24", None, "own error 5"), 925: ("c25", None, "")}
         for c in rec["foreign"] or []:
             if c.get("extra") == "none-expected":
                 if c["ret"]:
@@ -441,7 +452,7 @@ def mon_c17(rec):
     for d in reqs.values():
         byfn[d["function"]].append(d)
     arity = {"Delayed": 2, "Zero": 0, "EchoInt": 2, "Fail": 2, "FailVal": 3, "Multi": 8, "Iter": 3, "Sub.Deep.Ping": 1, "EchoPtr": 2, "CallClosure": 2,
-             "EchoStr": 2, "EchoStruct": 2, "Call0": 2, "Notify0": 1}
+             "EchoStr": 2, "EchoStruct": 2, "Call0": 2, "Notify0": 1, "Keep": 2, "FailOwn": 2}
     for fn, ds in byfn.items():
         if fn not in arity:
             out.append("request names function %r which no call used" % fn)
@@ -475,6 +486,10 @@ def mon_c17(rec):
             want_err = "" if args[2] == "<nil>" else args[2]
             if r["err"] != want_err or r["value"] != {"$decoded": args[1]}:
                 out.append("response to FailVal(%r, %r): err=%r value=%r" % (args[1], args[2], r["err"], r["value"]))
+        if fn == "FailOwn":
+            want_err = "" if args[1] == 0 else "own error %d" % args[1]
+            if r["err"] != want_err or r["value"] != {"$decoded": None}:
+                out.append("response to FailOwn(%r) (a handler whose only result has an error interface type of its own): err=%r value=%r, expected err=%r and a null value" % (args[1], r["err"], r["value"], want_err))
         if fn == "Zero" and (r["err"] != "" or r["value"] != {"$decoded": None}):
             out.append("response to Zero: err=%r value=%r" % (r["err"], r["value"]))
         if fn in ("EchoInt", "EchoStr", "EchoStruct") and (r["err"] != "" or r["value"] != {"$decoded": args[1]}):
@@ -539,12 +554,17 @@ def mon_relay(rec):
     for c in rec["calls"] or []:
         if c["m"] == "ProbeOtherLink" and (c["err"] != "" or c["ret"] != "42"):
             out.append("after link 0 ended (and a call relayed over link 1 with a context of link 0 was aborted), a new call on link 1 from %s returned (%s, %r)" % (c["from"], c["ret"], c["err"]))
+        elif c["m"] == "RelayedOverFailedLink":
+            if c["err"] != "closed" or not c.get("done"):
+                out.append("a handler serving link 1 relayed the call over link 0, which failed: its caller on link 1 got (%s, %r), expected the handler's own result (0, 'closed') as an ordinary application-level error" % (c["ret"], c["err"]))
+        elif c["m"] == "OtherLinkStillUp" and "hands back the error" in rec.get("config", "") and c["ret"] != "up":
+            out.append("link 0 failed and a handler serving link 1 handed the resulting error ('closed') back to its caller: the Link call of link 1 on %s returned %r although nothing happened on link 1" % (c.get("extra"), c["err"]))
         elif c["m"] == "OtherLinkStillUp" and c["ret"] != "up":
             out.append("after link 0 ended, the Link call of link 1 on %s returned %r although nothing happened on link 1 (a handler serving link 0 had invoked, with its request's context, a callable passed by link 1's peer)" % (c.get("extra"), c["err"]))
         elif c["m"] == "InFlightOnOtherLink" and (c["err"] != "" or c["ret"] != str(c["tag"])):
             out.append("the call in flight on link 1 (from %s) when link 0 ended returned (%s, %r)" % (c["from"], c["ret"], c["err"]))
     for e in rec.get("events") or []:
-        if e["kind"] == "ret" and e["m"] == "Relay" and e.get("err") != "context canceled":
+        if e["kind"] == "ret" and e["m"] == "Relay" and e.get("err") != "context canceled" and "hands back the error" not in rec.get("config", ""):
             out.append("the call relayed with the context of a request of the ended link returned (%s, %r), expected that context's error" % (e.get("data"), e.get("err")))
     return out
 
@@ -755,7 +775,7 @@ def check(res, tier, seed):
                           dict(kind="sys", output=out[-3000:], last=recs[-1] if recs else None))
         mon = MONITORS[pid]
         for r in recs:
-            vs = (mon_c11 if (pid == "C01" and r["family"] == "closures") else mon_framing if r["family"] == "framing" else (lambda rr: [v for v in mon_c13(rr) if "closure" in v]) if (pid == "C11" and r["family"] == "hub") else mon_relay if r["family"] == "relay" else mon_nestedlink if r["family"] == "nestedlink" else mon)(r)
+            vs = (mon_c11 if (pid == "C01" and r["family"] == "closures") else mon_c01 if (pid == "C09" and r["family"] == "conc") else mon_framing if r["family"] == "framing" else (lambda rr: [v for v in mon_c13(rr) if "closure" in v]) if (pid == "C11" and r["family"] == "hub") else mon_relay if r["family"] == "relay" else mon_nestedlink if r["family"] == "nestedlink" else mon)(r)
             if vs:
                 hits += 1
                 res.violation("sys-monitor:" + re.sub(r"\d+", "N", vs[0])[:50], "implementation violates %s: %s" % (pid, vs[0]),
@@ -785,6 +805,12 @@ def check(res, tier, seed):
     nmodel = 0
     if model:
         nmodel = model(res, wd, recs, hits)
+    if pid == "C02":
+        # "slow handlers block nobody" on the mutex level: regenerated from the sources (go/ast), the critical
+        # sections obey the discipline of Regions.v (no foreign code and no nested acquisition under a table lock; the
+        # registry's lock only around hooks and the enumeration callback - the exclusion the property states)
+        from . import regions
+        regions.obligation(res, wd, hits)
     if getattr(res, "proof_broken", None):
         why, log = res.proof_broken
         res.violation("proof-broken", "proof obligations of %s no longer check: %s" % (pid, why),
